@@ -30,7 +30,11 @@ For every kind of key and value type (`kk`, `vk` arbitrary: interface or not), e
 never): the typed `Range` invokes `f` on exactly the typed images of the entries that
 `sync.Map.Range` hands to a callback that answers what `f` answers on the typed image — the same
 entries, in the same order, stopping at the same position (all entries up to and including the
-first on which `f` returns false). -/
+first on which `f` returns false).
+The tie to the source is `MapCfg.sound MapCfg.gen` (`Proofs/Watch.lean`), not equality with one fixed configuration:
+every assertion comma-ok, no absent-key guard in `LoadOrStore`, the closure of `Range` as classified, the forwarding
+and the method set intact — a source that adds or drops the (then immaterial) absent-key guard in `Load`,
+`LoadAndDelete` or `Swap` still satisfies it (audit C18 F7), a plain assertion `x.(V)` does not. -/
 theorem typedMap_refines_syncMap (kk : Kind K UK) (vk : Kind V UV) (m : SMap UK UV) (k : K) (v old new : V)
     (f : K → V → Bool) :
     tLoad MapCfg.gen kk vk m k = (m, .ok (vk.ofAny (m.load (kk.toAny k)).1, (m.load (kk.toAny k)).2)) ∧
@@ -52,15 +56,9 @@ theorem typedMap_refines_syncMap (kk : Kind K UK) (vk : Kind V UV) (m : SMap UK 
       ((m.compareAndDelete (kk.toAny k) (vk.toAny old)).1, .ok (m.compareAndDelete (kk.toAny k) (vk.toAny old)).2) ∧
     tRange MapCfg.gen kk vk m f =
       .ok ((m.rangeWith (fun k' v' => f (kk.ofAny k') (vk.ofAny v'))).map (fun p => (kk.ofAny p.1, vk.ofAny p.2))) := by
-  have hgen : MapCfg.gen = MapCfg.std := by decide
-  rw [hgen]
-  refine ⟨?_, rfl, rfl, ?_, ?_, ?_, rfl, rfl, tRange_std kk vk m f⟩
-  · simp only [tLoad, MapCfg.std]
-    rw [guarded_commaOk vk _ _ _ (load_absent m _)]
-  · simp only [tLoadAndDelete, MapCfg.std]
-    rw [guarded_commaOk vk _ _ _ (loadAndDelete_absent m _)]
-  · simp only [tLoadOrStore, MapCfg.std, guarded, Bool.false_and, Bool.false_eq_true, if_false, assertT, Out.map]
-  · simp only [tSwap, MapCfg.std, guarded, Bool.false_and, Bool.false_eq_true, if_false, assertT, Out.map]
+  have hgen : MapCfg.sound MapCfg.gen = true := by decide
+  obtain ⟨h1, h2, h3, h4, h5⟩ := typed_of_sound MapCfg.gen hgen kk vk m k v f
+  exact ⟨h1, rfl, rfl, h2, h3, h4, rfl, rfl, h5⟩
 
 /-- **… reporting absent values as the zero value rather than panicking**: on a key that is not in
 the map, `Load`, `LoadAndDelete` and `Swap` return the zero value and `false`. -/
@@ -80,6 +78,31 @@ theorem kinds_lawful (T : Type) (zero : T) (U : Type) : (concrete T zero).Lawful
   constructor
   · intro t; rfl
   · intro t; cases t <;> rfl
+
+/-- **what went in through the wrapper comes out of it**, for value types that are and that are not interfaces:
+after `Store(k, v)`, `Load(k)` returns exactly `v` and `true` — for every kind of value type whose values survive the
+round trip through `interface{}` (`Lawful`; both `concrete` and `iface` are, `kinds_lawful`), in particular a stored
+nil `error` comes back as nil, `true` and a stored `0` as `0`, `true` (not as "absent"). -/
+theorem typedMap_store_then_load (kk : Kind K UK) (vk : Kind V UV) (hv : vk.Lawful) (m : SMap UK UV) (k : K) (v : V) :
+    (tLoad MapCfg.gen kk vk (tStore kk vk m k v).1 k).2 = .ok (v, true) := by
+  have h := (typedMap_refines_syncMap kk vk (tStore kk vk m k v).1 k v v v (fun _ _ => true)).1
+  rw [h]
+  simp only [tStore, smap_load_store, hv v]
+
+/-- … instantiated at both kinds (this is where `kinds_lawful` is used) -/
+theorem typedMap_store_then_load_both_kinds (T : Type) (zero : T) (U : Type) [DecidableEq T] [DecidableEq U]
+    (m1 : SMap T T) (m2 : SMap T U) (k v : T) (e : Option U) :
+    (tLoad MapCfg.gen (concrete T zero) (concrete T zero) (tStore (concrete T zero) (concrete T zero) m1 k v).1 k).2
+      = .ok (v, true) ∧
+    (tLoad MapCfg.gen (concrete T zero) (iface U) (tStore (concrete T zero) (iface U) m2 k e).1 k).2 = .ok (e, true) :=
+  ⟨typedMap_store_then_load _ _ (kinds_lawful T zero U).1 m1 k v,
+   typedMap_store_then_load _ _ (kinds_lawful T zero U).2 m2 k e⟩
+
+/-- robustness of the tie (audit C18 F7): a source without the absent-key guard in `Load` and with one in `Swap` —
+behaviourally the same wrapper — is still `sound`; a plain assertion in `Load`, or a guard in `LoadOrStore`, is not. -/
+example : MapCfg.sound { MapCfg.gen with loadGuard := false, swapGuard := true } = true ∧
+    MapCfg.sound { MapCfg.gen with loadAssert := .plain } = false ∧
+    MapCfg.sound { MapCfg.gen with losGuard := true } = false := by decide
 
 /-- non-vacuity: `V = error` with a stored nil value, and an absent key -/
 example : tLoad MapCfg.gen (concrete Int 0) (iface Int) [(some 1, none)] 1 = ([(some 1, none)], .ok (none, true)) ∧
